@@ -374,6 +374,11 @@ def run(ctx):
         for pre in ('mix0_4', 'uniform0_10'):
             cases.append({'kind': 'correction', 'nseq': nseq, 'nsub': nsub, 'F': [0] * len(nseq), 'sim_threshold': 1e-2, 'coverage': 'point80', 'seed': ctx.seed,
                           'prehistory': pre})
+    # the simulated regime after another coverage distribution was simulated for the same population names in this process
+    for nseq, nsub in (((4,), (2,)), ((6,), (4,)), ((4, 2), (2, 2))):
+        for pre in ('point1', 'uniform0_3', 'mix0_4'):
+            cases.append({'kind': 'correction', 'nseq': nseq, 'nsub': nsub, 'F': [0] * len(nseq), 'sim_threshold': 0, 'coverage': 'point80', 'seed': ctx.seed,
+                          'prehistory': pre})
     if not ctx.quick:
         for nseq, nsub in (((6,), (2,)), ((6,), (6,)), ((10,), (6,)), ((12,), (4,)), ((6, 4), (4, 2)), ((2, 6), (2, 4)), ((2, 4, 2), (2, 2, 2))):
             for cname in covnames:
